@@ -594,6 +594,8 @@ BINDER_SITES = {
     ("Expression", "Blob", "self_var"): ("expression", "self_var"),
     ("CaseBranch", "CaseBranch", "variable"): ("expression", "branches[*].variable[*]"),
 }
+    import c07
+    c07.visit_loops_complete(F, rep)
 
 
 def binder_typed(F, rep, rule="BINDER-TYPED"):
